@@ -40,6 +40,39 @@
 #include <sstream>
 #include <stdexcept>
 
+// Frees are deferred to the end of the execution: a traced object's address must not be handed out again while its name is
+// still registered (cores of awaited objects die inside the library, where the harness cannot un-name them).
+namespace quarantine {
+bool active = false;
+std::vector<void*>* list = nullptr;
+void Flush() {
+  if (list == nullptr) return;
+  for (void* p : *list) std::free(p);
+  list->clear();
+}
+}  // namespace quarantine
+
+void operator delete(void* p) noexcept {
+  if (p == nullptr) return;
+  if (quarantine::active && quarantine::list != nullptr) {
+    bool was = quarantine::active;
+    quarantine::active = false;
+    quarantine::list->push_back(p);
+    quarantine::active = was;
+    return;
+  }
+  std::free(p);
+}
+void operator delete(void* p, std::size_t) noexcept { operator delete(p); }
+void operator delete[](void* p) noexcept { operator delete(p); }
+void operator delete[](void* p, std::size_t) noexcept { operator delete(p); }
+void* operator new(std::size_t n) {
+  void* p = std::malloc(n == 0 ? 1 : n);
+  if (p == nullptr) throw std::bad_alloc{};
+  return p;
+}
+void* operator new[](std::size_t n) { return operator new(n); }
+
 namespace {
 
 using yaclib::detail::BaseCore;
@@ -162,6 +195,16 @@ bool Fulfilled(int j) {
   return false;
 }
 
+// A fulfiller that runs a callback which neither touches a counter nor resumes at once leaves no trace line of its own:
+// say so (the model has a step for it).  Only AwaitSticky(x) is of this kind when it submits.
+void FireIfSilent(int cid) {
+  auto& co = G->co[static_cast<std::size_t>(cid)];
+  if (co.reached == 0) return;
+  auto& op = G->sc->coros[static_cast<std::size_t>(cid)].ops[static_cast<std::size_t>(co.reached - 1)];
+  const std::string r = vx::gCtx->Cur();
+  if (op.kind == "sticky" && r[0] == 'p') vx::Ev("fire " + Cn(cid) + " " + r.substr(1));
+}
+
 struct Exec final : yaclib::IExecutor {
   int id = 0;
   std::string mode;  // run | stop | stop1
@@ -176,6 +219,7 @@ struct Exec final : yaclib::IExecutor {
   void Submit(yaclib::Job& job) noexcept final {
     auto it = G->job2cid.find(&job);
     int cid = it == G->job2cid.end() ? -1 : it->second;
+    if (cid >= 0) FireIfSilent(cid);
     vx::Ev("submit " + Cn(cid) + " e" + std::to_string(id));
     bool accept = mode == "run" || (mode == "stop1" && accepted == 0);
     if (!accept) {
@@ -345,6 +389,13 @@ struct W {
     }
     const bool suspended = co.may_suspend;
     co.may_suspend = false;
+    if (suspended && (op.kind == "single" || op.kind == "task") && on[0] == 'p') vx::Ev("fire " + me + " " + on.substr(1));
+    if (suspended && on == "e0") {
+      // Submit on the library's inline executor is `Call` in place: not observable through an executor of the harness
+      if (op.kind == "sticky" && r[0] == 'p') vx::Ev("fire " + me + " " + r.substr(1));
+      vx::Ev("submit " + me + " e0");
+      vx::Ev("call " + me);
+    }
     if (++co.resumes[k] > 1) G->Bad(me + " resumed twice from co_await #" + std::to_string(k));
     bool done = true;
     for (int j : op.cells) done = done && Fulfilled(j);
@@ -585,12 +636,16 @@ void Fulfil(int j) {
 }
 
 void RunScenario(const Scenario& sc) {
+  quarantine::active = false;
+  if (quarantine::list == nullptr) quarantine::list = new std::vector<void*>();
+  quarantine::Flush();
   if (!gLastDone) (void)gEnvOwner.release();  // a deadlocked execution: its fibers still reference the old state
   gEnvOwner = std::make_unique<Env>();
   gLastDone = false;
   Env& env = *gEnvOwner;
   G = &env;
   env.sc = &sc;
+  quarantine::active = true;
   auto& ctx = *vx::gCtx;
   ctx.NameValWord(0, "empty");
   ctx.NameValWord(~0ULL, "result");
@@ -684,6 +739,7 @@ void RunScenario(const Scenario& sc) {
   env.task.clear();
   env.prom.clear();
   env.sprom.clear();
+  quarantine::active = false;
   gLastDone = true;
 }
 
